@@ -83,7 +83,7 @@ Record f0_facts : Prop := {
   f0_cact : forall ci f, In ci (fl_crossings fb) -> In f ci -> In f (fl_act fb);
   f0_act : fl_act fb = filter (isact fb) (seq 0 n);
   f0_actfd : forall f fd, In f (fl_act fb) -> factor_at fb f = Some fd ->
-             ff_complex fd = false /\ (ff_window fd = None \/ crossed_derived_fd fb f fd = true);
+             ff_complex fd = false /\ (ff_window fd = None \/ crossed_derived_fd fb f fd = true \/ ucd_fd fb f fd = true);
   f0_derived_single : has_derived fb = true -> length (fl_crossings fb) = 1 /\ sources_ok fb = true;
   f0_implied : forall f fd, ~ In f (fl_act fb) -> factor_at fb f = Some fd -> implied_fd fb f fd = true;
   f0_constraints : forall k, In k (fl_constraints fb) -> constraint_f2 fb k = true;
@@ -163,7 +163,7 @@ Proof.
   assert (Hwp : forall x, In x (fl_weights fb) -> 0 < x).
   { intros x Hx. rewrite forallb_forall in Hwpos. apply Nat.ltb_lt. apply Hwpos. exact Hx. }
   assert (Hfd : forall f fd, factor_at fb f = Some fd ->
-            if isact fb f then basic_fd fd || crossed_derived_fd fb f fd = true else implied_fd fb f fd = true).
+            if isact fb f then basic_fd fd || crossed_derived_fd fb f fd || ucd_fd fb f fd = true else implied_fd fb f fd = true).
   { intros f fd Hf. unfold factors_ok in Hfac. rewrite forallb_forall in Hfac. unfold factor_at in Hf.
     assert (Hlt : f < n) by (apply nth_error_Some; congruence).
     specialize (Hfac (f, fd)). cbn [fst snd] in Hfac.
@@ -193,10 +193,12 @@ Proof.
   - apply pairs_eqb_eq. exact Hexa.
   - intros ci f Hci Hf. apply (Hplain' ci Hci). exact Hf.
   - intros f fd Hf Hfa. specialize (Hfd f fd Hfa). rewrite (proj2 (isact_In f) Hf) in Hfd.
-    apply orb_prop in Hfd. destruct Hfd as [Hb | Hd].
+    apply orb_prop in Hfd. destruct Hfd as [Hfd | Hu]; [apply orb_prop in Hfd; destruct Hfd as [Hb | Hd]|].
     + unfold basic_fd in Hb. destruct (ff_window fd); [discriminate|]. apply negb_true_iff in Hb. auto.
-    + split; [|right; exact Hd]. unfold crossed_derived_fd in Hd. destruct (ff_window fd); [|discriminate].
+    + split; [|right; left; exact Hd]. unfold crossed_derived_fd in Hd. destruct (ff_window fd); [|discriminate].
       repeat (apply andb_prop in Hd; destruct Hd as [Hd _]). apply negb_true_iff in Hd. exact Hd.
+    + split; [|right; right; exact Hu]. unfold ucd_fd in Hu. destruct (ff_window fd); [|discriminate].
+      repeat (apply andb_prop in Hu; destruct Hu as [Hu _]). apply negb_true_iff in Hu. exact Hu.
   - intros Hhd. rewrite Hhd in Hder. cbn [negb orb] in Hder. apply andb_prop in Hder. destruct Hder as [H1 H2].
     apply Nat.eqb_eq in H1. split; [exact H1 | exact H2].
   - intros f fd Hf Hfa. specialize (Hfd f fd Hfa). destruct (isact fb f) eqn:E; [apply isact_In in E; contradiction | exact Hfd].
@@ -234,27 +236,46 @@ Proof.
   apply (f0_actfd f0_unpack f fd Hf E).
 Qed.
 
-(** a factor of [act_design] is plain, or a within-trial derived factor of the sampled crossing reading plain factors *)
+(** a factor of [act_design] is plain, or a within-trial derived factor: of the sampled crossing, reading plain factors,
+    or outside it, reading drawn factors through an exact table *)
 Lemma f0_act_kind f : In f (fl_act fb) ->
   is_derived fb f = false \/
   (In f c /\ exists fd w, factor_at fb f = Some fd /\ ff_window fd = Some w /\ win_width w = 1 /\ win_stride w = 1 /\
-     win_start w = 0 /\ forall d, In d (win_deps w) -> In d (fl_act fb) /\ is_derived fb d = false).
+     win_start w = 0 /\ forall d, In d (win_deps w) -> In d (fl_act fb) /\ is_derived fb d = false) \/
+  (~ In f c /\ exists fd w, factor_at fb f = Some fd /\ ff_window fd = Some w /\ win_width w = 1 /\ win_stride w = 1 /\
+     win_start w = 0 /\ (forall d, In d (win_deps w) -> In d (fl_act fb) /\ (is_derived fb d = false \/ In d c)) /\
+     tables_exact fb f w = true).
 Proof.
   intros Hf. unfold is_derived. destruct (factor_at fb f) as [fd|] eqn:E; [|left; reflexivity].
-  destruct (f0_actfd f0_unpack f fd Hf E) as [_ [Hw | Hd]]; [left; rewrite Hw; reflexivity|].
-  right. unfold crossed_derived_fd in Hd. destruct (ff_window fd) as [w0|] eqn:Ew; [|discriminate].
-  apply andb_prop in Hd. destruct Hd as [Hd Hdeps]. apply andb_prop in Hd. destruct Hd as [Hd Hin].
-  apply andb_prop in Hd. destruct Hd as [Hd Hst]. apply andb_prop in Hd. destruct Hd as [Hd Hsd].
-  apply andb_prop in Hd. destruct Hd as [_ Hwd].
-  apply Nat.eqb_eq in Hst. apply Nat.eqb_eq in Hsd. apply Nat.eqb_eq in Hwd. apply memb_In in Hin.
-  split; [exact Hin|]. exists fd, w0. repeat split; try assumption; try reflexivity.
-  - rewrite forallb_forall in Hdeps. specialize (Hdeps d H). apply andb_prop in Hdeps. apply isact_In. apply Hdeps.
-  - rewrite forallb_forall in Hdeps. specialize (Hdeps d H). apply andb_prop in Hdeps. destruct Hdeps as [_ Hb].
-    unfold is_basic_f, basic_fd in Hb. destruct (factor_at fb d) as [dd|]; [|reflexivity]. destruct (ff_window dd); [discriminate | reflexivity].
+  destruct (f0_actfd f0_unpack f fd Hf E) as [_ [Hw | [Hd | Hu]]]; [left; rewrite Hw; reflexivity| |].
+  - right. left. unfold crossed_derived_fd in Hd. destruct (ff_window fd) as [w0|] eqn:Ew; [|discriminate].
+    apply andb_prop in Hd. destruct Hd as [Hd Hdeps]. apply andb_prop in Hd. destruct Hd as [Hd Hin].
+    apply andb_prop in Hd. destruct Hd as [Hd Hst]. apply andb_prop in Hd. destruct Hd as [Hd Hsd].
+    apply andb_prop in Hd. destruct Hd as [_ Hwd].
+    apply Nat.eqb_eq in Hst. apply Nat.eqb_eq in Hsd. apply Nat.eqb_eq in Hwd. apply memb_In in Hin.
+    split; [exact Hin|]. exists fd, w0. repeat split; try assumption; try reflexivity.
+    + rewrite forallb_forall in Hdeps. specialize (Hdeps d H). apply andb_prop in Hdeps. apply isact_In. apply Hdeps.
+    + rewrite forallb_forall in Hdeps. specialize (Hdeps d H). apply andb_prop in Hdeps. destruct Hdeps as [_ Hb].
+      unfold is_basic_f, basic_fd in Hb. destruct (factor_at fb d) as [dd|]; [|reflexivity]. destruct (ff_window dd); [discriminate | reflexivity].
+  - right. right. unfold ucd_fd in Hu. destruct (ff_window fd) as [w0|] eqn:Ew; [|discriminate].
+    apply andb_prop in Hu. destruct Hu as [Hu Hex]. apply andb_prop in Hu. destruct Hu as [Hu Hdeps].
+    apply andb_prop in Hu. destruct Hu as [Hu Hin].
+    apply andb_prop in Hu. destruct Hu as [Hu Hst]. apply andb_prop in Hu. destruct Hu as [Hu Hsd].
+    apply andb_prop in Hu. destruct Hu as [_ Hwd].
+    apply Nat.eqb_eq in Hst. apply Nat.eqb_eq in Hsd. apply Nat.eqb_eq in Hwd. apply negb_true_iff in Hin. apply memb_false in Hin.
+    split; [exact Hin|]. exists fd, w0. split; [reflexivity|]. split; [exact Ew|]. split; [exact Hwd|]. split; [exact Hsd|].
+    split; [exact Hst|]. split; [|exact Hex].
+    intros d Hd. rewrite forallb_forall in Hdeps. specialize (Hdeps d Hd). unfold in_K in Hdeps.
+    apply andb_prop in Hdeps. destruct Hdeps as [Ha Hk]. split; [apply isact_In; exact Ha|].
+    apply orb_prop in Hk. destruct Hk as [Hk | Hk]; [left; apply negb_true_iff in Hk; exact Hk | right; apply memb_In; exact Hk].
 Qed.
 
-Lemma f0_uncrossed_not_derived f : In f (fl_act fb) -> ~ In f c -> is_derived fb f = false.
-Proof. intros Hf Hn. destruct (f0_act_kind f Hf) as [H | [H _]]; [exact H | contradiction]. Qed.
+Lemma f0_crossed_kind f : In f c -> is_derived fb f = true ->
+  exists fd w, factor_at fb f = Some fd /\ ff_window fd = Some w /\ win_width w = 1 /\ win_stride w = 1 /\
+     win_start w = 0 /\ forall d, In d (win_deps w) -> In d (fl_act fb) /\ is_derived fb d = false.
+Proof.
+  intros Hc Hd. destruct (f0_act_kind f (f0_cact_main f Hc)) as [H | [[_ H] | [H _]]]; [congruence | exact H | contradiction].
+Qed.
 
 (** a combination is excluded iff it contains a level named by an [Exclude] constraint *)
 Lemma f0_excluded_spec di : is_excluded_combination fb di = true <->
@@ -397,26 +418,32 @@ Qed.
 
 (** the uncrossed factors are plain; those read by a crossed derived factor are the source factors *)
 Definition f0_ub : list nat := filter (fun f => negb (memb f (the_crossing fb))) (fl_act fb).
-Definition f0_ubs : list nat := filter (fun f => memb f f0_sf) f0_ub.
-Definition f0_ubi : list nat := filter (fun f => negb (memb f f0_sf)) f0_ub.
+Definition f0_ubb : list nat := filter (fun f => negb (is_derived fb f)) f0_ub.
+Definition f0_ubs : list nat := filter (fun f => memb f f0_sf) f0_ubb.
+Definition f0_ubi : list nat := filter (fun f => negb (memb f f0_sf)) f0_ubb.
+(** the derived factors of [act_design] outside the sampled crossing *)
+Definition f0_ucdl : list nat := filter (is_derived fb) f0_ub.
 
 Lemma f0_ub_act f : In f f0_ub -> In f (fl_act fb) /\ ~ In f c.
 Proof. unfold f0_ub. intros H. apply filter_In in H. destruct H as [H1 H2]. apply negb_true_iff in H2. apply memb_false in H2. auto. Qed.
 
+Lemma f0_ubb_act f : In f f0_ubb -> In f (fl_act fb) /\ ~ In f c /\ is_derived fb f = false.
+Proof.
+  unfold f0_ubb. intros H. apply filter_In in H. destruct H as [H1 H2]. apply negb_true_iff in H2.
+  destruct (f0_ub_act f H1). auto.
+Qed.
+
 Lemma f0_ubi_act f : In f f0_ubi -> In f (fl_act fb).
-Proof. unfold f0_ubi. intros H. apply filter_In in H. apply f0_ub_act. apply H. Qed.
+Proof. unfold f0_ubi. intros H. apply filter_In in H. apply f0_ubb_act. apply H. Qed.
 
 Lemma f0_ubs_act f : In f f0_ubs -> In f (fl_act fb).
-Proof. unfold f0_ubs. intros H. apply filter_In in H. apply f0_ub_act. apply H. Qed.
+Proof. unfold f0_ubs. intros H. apply filter_In in H. apply f0_ubb_act. apply H. Qed.
 
 Lemma f0_uncrossed_and_complex : uncrossed_and_complex fb c = f0_ub.
 Proof. unfold uncrossed_and_complex, f0_ub. rewrite f0_cnc. reflexivity. Qed.
 
-Lemma f0_uncrossed_basic : uncrossed_basic fb c = f0_ub.
-Proof.
-  unfold uncrossed_basic. rewrite f0_uncrossed_and_complex. apply filter_all.
-  intros f Hf. destruct (f0_ub_act f Hf) as [Ha Hn]. rewrite (f0_uncrossed_not_derived f Ha Hn). reflexivity.
-Qed.
+Lemma f0_uncrossed_basic : uncrossed_basic fb c = f0_ubb.
+Proof. unfold uncrossed_basic. rewrite f0_uncrossed_and_complex. reflexivity. Qed.
 
 Lemma f0_ubs_eq : uncrossed_basic_source fb c = f0_ubs.
 Proof. unfold uncrossed_basic_source. rewrite f0_uncrossed_basic. reflexivity. Qed.
@@ -424,11 +451,8 @@ Proof. unfold uncrossed_basic_source. rewrite f0_uncrossed_basic. reflexivity. Q
 Lemma f0_ubi_eq : uncrossed_basic_independent fb c = f0_ubi.
 Proof. unfold uncrossed_basic_independent. rewrite f0_uncrossed_basic. reflexivity. Qed.
 
-Lemma f0_ucd : uncrossed_derived_and_complex_derived fb c = [].
-Proof.
-  unfold uncrossed_derived_and_complex_derived. apply filter_none. intros f Hf.
-  rewrite f0_uncrossed_and_complex in Hf. destruct (f0_ub_act f Hf) as [Ha Hn]. apply (f0_uncrossed_not_derived f Ha Hn).
-Qed.
+Lemma f0_ucd : uncrossed_derived_and_complex_derived fb c = f0_ucdl.
+Proof. unfold uncrossed_derived_and_complex_derived. rewrite f0_uncrossed_and_complex. reflexivity. Qed.
 
 (** without a derived factor there is no source factor *)
 Lemma f0_no_derived_sf : has_derived fb = false -> f0_cd = [] /\ f0_sf = [] /\ f0_ubs = [] /\ f0_ubi = f0_ub.
@@ -439,9 +463,20 @@ Proof.
     exfalso. assert (existsb (is_derived fb) (fl_act fb) = true) by (apply existsb_exists; exists f; split; [apply f0_cact_main; exact Hf | exact E]).
     congruence. }
   assert (Hsf : f0_sf = []) by (unfold f0_sf, source_factors; rewrite f0_cnd, Hcd; reflexivity).
-  split; [exact Hcd|]. split; [exact Hsf|]. unfold f0_ubs, f0_ubi. rewrite Hsf. split.
+  assert (Hubb : f0_ubb = f0_ub).
+  { unfold f0_ubb. apply filter_all. intros f Hf. destruct (f0_ub_act f Hf) as [Ha _].
+    destruct (is_derived fb f) eqn:E; [|reflexivity]. exfalso.
+    assert (existsb (is_derived fb) (fl_act fb) = true) by (apply existsb_exists; exists f; split; assumption). congruence. }
+  split; [exact Hcd|]. split; [exact Hsf|]. unfold f0_ubs, f0_ubi. rewrite Hsf, Hubb. split.
   - apply filter_none. intros f _. reflexivity.
   - apply filter_all. intros f _. reflexivity.
+Qed.
+
+Lemma f0_no_derived_ucd : has_derived fb = false -> f0_ucdl = [].
+Proof.
+  intros H. unfold f0_ucdl. apply filter_none. intros f Hf. destruct (f0_ub_act f Hf) as [Ha _].
+  destruct (is_derived fb f) eqn:E; [|reflexivity]. exfalso. unfold has_derived in H.
+  assert (existsb (is_derived fb) (fl_act fb) = true) by (apply existsb_exists; exists f; split; assumption). congruence.
 Qed.
 
 Lemma f0_block_weight_of ci : In ci (fl_crossings fb) -> block_crossing_weight fb ci = ROk (Z.of_nat (cw_of fb ci)).
@@ -484,7 +519,7 @@ Definition f0_base : enum_base :=
   {| eb_main := main_idx fb; eb_mf := c; eb_cnc := c; eb_instances := f0_instances;
      eb_cweights := f0_cws; eb_unweighted := f0_unw;
      eb_sources := f0_srcs; eb_src_factors := f0_ubs; eb_m := 1%Z; eb_csize := Z.of_nat f0_C;
-     eb_moc := f0_moc; eb_sorted_derived := stable_sort (fdepth fb) (derived_factors fb); eb_sorted_ucd := []; eb_has_cc := false;
+     eb_moc := f0_moc; eb_sorted_derived := stable_sort (fdepth fb) (derived_factors fb); eb_sorted_ucd := stable_sort (fdepth fb) f0_ucdl; eb_has_cc := false;
      eb_crossing_sizes := map Z.of_nat (fl_sizes fb);
      eb_preamble_sizes := map (fun _ => 0%Z) (seq 0 (length (fl_crossings fb)));
      eb_crossing_weights := map (fun ci => Z.of_nat (cw_of fb ci)) (fl_crossings fb);
@@ -512,7 +547,7 @@ Proof.
   { rewrite nth_error_map. rewrite (nth_error_nth' (seq 0 (length (fl_crossings fb))) 0) by (rewrite seq_length; apply (f0_main_lt f0_unpack)).
     reflexivity. }
   rewrite Hpre. cbn [of_opt rbind].
-  rewrite f0_ucd. cbn [stable_sort fold_right].
+  rewrite f0_ucd.
   assert (Hmap : map (fun x : Z => (x * 1)%Z) f0_cws = f0_cws).
   { rewrite <- (map_id f0_cws) at 2. apply map_ext. intros x. lia. }
   rewrite Hmap. unfold f0_base, f0_moc, f0_srcs. f_equal. f_equal; try reflexivity; try lia.
@@ -641,7 +676,7 @@ Proof.
 Qed.
 
 Lemma f0_ubs_nodup : NoDup f0_ubs.
-Proof. unfold f0_ubs, f0_ub. apply NoDup_filter. apply NoDup_filter. apply act_nodup. Qed.
+Proof. unfold f0_ubs, f0_ubb, f0_ub. apply NoDup_filter. apply NoDup_filter. apply NoDup_filter. apply act_nodup. Qed.
 
 Lemma f0_merged_ok ci sc : In ci f0_instances -> In sc f0_srcs -> merged_ok ci sc.
 Proof.
@@ -655,11 +690,12 @@ Proof.
     - destruct (alookup (combine c ls) d) as [a|]; [eexists; reflexivity|].
       apply (alookup_combine_in f0_ubs ls' d f0_ubs_nodup Hl' Hd). }
   split; [apply Hlook; left; exact Hdfc|].
-  destruct (f0_act_kind df (f0_cact_main df Hdfc)) as [Hnd | [_ (fd & w0 & Hfa & Hw & _ & _ & _ & Hdeps)]]; [congruence|].
+  destruct (f0_crossed_kind df Hdfc Hder) as (fd & w0 & Hfa & Hw & _ & _ & _ & Hdeps).
   exists w0. split; [unfold window_of; rewrite Hfa; exact Hw|]. intros d Hd. apply Hlook.
   destruct (Hdeps d Hd) as [Hda Hdb]. destruct (in_dec Nat.eq_dec d c) as [Hc | Hnc]; [left; exact Hc|]. right.
   unfold f0_ubs. apply filter_In. split.
-  - unfold f0_ub. apply filter_In. split; [exact Hda|]. apply negb_true_iff. apply memb_false. exact Hnc.
+  - unfold f0_ubb. apply filter_In. split; [|rewrite Hdb; reflexivity].
+    unfold f0_ub. apply filter_In. split; [exact Hda|]. apply negb_true_iff. apply memb_false. exact Hnc.
   - apply memb_In. apply (f0_sf_In df w0 d Hdf); [unfold window_of; rewrite Hfa; exact Hw | exact Hd].
 Qed.
 
